@@ -140,3 +140,127 @@ VARIANTS += [
  tail_variant('benign-helper-result-in-local', 'silent', T_LOCAL, EXEC_H + decode_helper(), why='helper result held in a local before it is returned'),
  tail_variant('helper-result-wrapped', 'flagged(runner/error-mapping/)', T_TWO.replace('return executionError(logger, pluginName, req.Command(), stderr, err)', 'return fmt.Errorf("plugin failed: %w", executionError(logger, pluginName, req.Command(), stderr, err))'), EXEC_H + decode_helper()),
 ]
+
+# ---- second pass, (a) typestate: the command configured by a helper / built by a constructor function
+OUT_OLD = ('\tvar stdout, stderr bytes.Buffer\n\tcmd := exec.CommandContext(ctx, name, string(command))\n\tcmd.Stdin = bytes.NewReader(req)\n'
+           '\t// The limit writer will be handled by the caller in run() by comparing the\n\t// bytes written with the expected length of the bytes.\n'
+           '\tcmd.Stderr = io.LimitWriter(&stderr, maxPluginOutputSize)\n\tcmd.Stdout = io.LimitWriter(&stdout, maxPluginOutputSize)\n'
+           '\t// do not wait forever for the output pipes held by plugin\'s descendants\n\tcmd.WaitDelay = pluginWaitDelay\n')
+VAL_HOOK = '// validate checks if the metadata is correctly populated.'
+def configure_helper(delay='\tcmd.WaitDelay = pluginWaitDelay\n', errw='io.LimitWriter(stderr, maxPluginOutputSize)'):
+    return ('func configure(cmd *exec.Cmd, req []byte, stdout, stderr *bytes.Buffer) {\n\tcmd.Stdin = bytes.NewReader(req)\n'
+            '\tcmd.Stderr = ' + errw + '\n\tcmd.Stdout = io.LimitWriter(stdout, maxPluginOutputSize)\n' + delay + '}\n\n')
+def out_variant(name, expect, body, helpers, extra=(), why=None):
+    d = dict(name=name, file=P, expect=expect, find=OUT_OLD, replace=body, edits=[(P, VAL_HOOK, helpers + VAL_HOOK)] + list(extra))
+    if why: d['why'] = why
+    return d
+B_CONF = '\tvar stdout, stderr bytes.Buffer\n\tcmd := exec.CommandContext(ctx, name, string(command))\n\tconfigure(cmd, req, &stdout, &stderr)\n'
+def ctor(ctx='ctx', sig='', outw='io.LimitWriter(stdout, maxPluginOutputSize)', errw='io.LimitWriter(stderr, maxPluginOutputSize)'):
+    return ('func newCommand(ctx context.Context, name string, command plugin.Command, req []byte, stdout, stderr *bytes.Buffer' + sig + ') *exec.Cmd {\n'
+            '\tcmd := exec.CommandContext(' + ctx + ', name, string(command))\n\tcmd.Stdin = bytes.NewReader(req)\n'
+            '\tcmd.Stderr = ' + errw + '\n\tcmd.Stdout = ' + outw + '\n\tcmd.WaitDelay = pluginWaitDelay\n\treturn cmd\n}\n\n')
+B_CTOR = '\tvar stdout, stderr bytes.Buffer\n\tcmd := newCommand(ctx, name, command, req, &stdout, &stderr)\n'
+VARIANTS += [
+ out_variant('benign-cmd-configured-by-helper', 'silent', B_CONF, configure_helper(), why='the fields of the command set by an unexported helper called before Run'),
+ out_variant('cmd-helper-wait-delay-conditional', 'flagged(command/wait-delay)', B_CONF, configure_helper(delay='\tif len(req) > 0 {\n\t\tcmd.WaitDelay = pluginWaitDelay\n\t}\n')),
+ out_variant('cmd-helper-called-conditionally', 'flagged(command/)', B_CONF.replace('\tconfigure(cmd, req, &stdout, &stderr)\n', '\tif len(req) > 0 {\n\t\tconfigure(cmd, req, &stdout, &stderr)\n\t}\n'), configure_helper()),
+ out_variant('cmd-helper-stderr-uncapped', 'flagged(command/stderr-capped)', B_CONF, configure_helper(errw='stderr')),
+ out_variant('cmd-field-overwritten-after-helper', 'flagged(command/stderr-capped)', B_CONF + '\tcmd.Stderr = &stderr\n', configure_helper()),
+ out_variant('cmd-helper-called-after-run', 'flagged(command/)', '\tvar stdout, stderr bytes.Buffer\n\tcmd := exec.CommandContext(ctx, name, string(command))\n\tdefer configure(cmd, req, &stdout, &stderr)\n', configure_helper()),
+ out_variant('benign-cmd-built-by-constructor', 'silent', B_CTOR, ctor(), why='the command created and configured by a constructor function'),
+ out_variant('cmd-constructor-background-context', 'flagged(command/context)', B_CTOR, ctor(ctx='context.Background()')),
+ out_variant('cmd-constructor-cap-from-request', 'flagged(command/stdout-capped)', B_CTOR.replace('&stderr)', '&stderr, int64(len(req))*1024*1024)'), ctor(sig=', limit int64', outw='io.LimitWriter(stdout, limit)')),
+ out_variant('cmd-constructor-stderr-uncapped', 'flagged(command/stderr-capped)', B_CTOR, ctor(errw='stderr')),
+ out_variant('cmd-constructor-shared-buffer', 'flagged(command/stdout-capped)', '\tvar stderr bytes.Buffer\n\tstdout := &sharedOutput\n\tstdout.Reset()\n\tcmd := newCommand(ctx, name, command, req, stdout, &stderr)\n', 'var sharedOutput bytes.Buffer\n\n' + ctor()),
+]
+
+# ---- the commander's ways of returning: single exit with named results, the timeout wrapping in a helper, Start + Wait
+OUTF_OLD = 'func (c execCommander) Output(ctx context.Context, name string, command plugin.Command, req []byte) ([]byte, []byte, error) {\n'
+OUTF_NAMED = 'func (c execCommander) Output(ctx context.Context, name string, command plugin.Command, req []byte) (out []byte, errOut []byte, err error) {\n'
+RUN_OLD = ('\terr := cmd.Run()\n\tif err != nil {\n\t\tif errors.Is(ctx.Err(), context.DeadlineExceeded) {\n'
+           '\t\t\treturn nil, stderr.Bytes(), fmt.Errorf("\'%s %s\' command execution timeout: %w", name, string(command), err)\n\t\t}\n'
+           '\t\treturn nil, stderr.Bytes(), err\n\t}\n\treturn stdout.Bytes(), nil, nil\n')
+def single_exit(extra=''):
+    return ('\terr = cmd.Run()\n\tif err == nil {\n\t\tout = stdout.Bytes()\n\t} else {\n\t\terrOut = stderr.Bytes()\n' + extra +
+            '\t\tif errors.Is(ctx.Err(), context.DeadlineExceeded) {\n\t\t\terr = fmt.Errorf("\'%s %s\' command execution timeout: %w", name, string(command), err)\n\t\t}\n\t}\n\treturn out, errOut, err\n')
+def timeout_helper(fall='err'):
+    return ('func timeoutError(ctx context.Context, name string, command plugin.Command, err error) error {\n\tif errors.Is(ctx.Err(), context.DeadlineExceeded) {\n'
+            '\t\treturn fmt.Errorf("\'%s %s\' command execution timeout: %w", name, string(command), err)\n\t}\n\treturn ' + fall + '\n}\n\n')
+R_TIMEOUT = '\tif err := cmd.Run(); err != nil {\n\t\treturn nil, stderr.Bytes(), timeoutError(ctx, name, command, err)\n\t}\n\treturn stdout.Bytes(), nil, nil\n'
+def start_wait(wait='\terr := cmd.Wait()\n', pre=''):
+    return ('\tif err := cmd.Start(); err != nil {\n\t\treturn nil, stderr.Bytes(), err\n\t}\n' + pre + wait + '\tif err != nil {\n\t\tif errors.Is(ctx.Err(), context.DeadlineExceeded) {\n'
+            '\t\t\treturn nil, stderr.Bytes(), fmt.Errorf("\'%s %s\' command execution timeout: %w", name, string(command), err)\n\t\t}\n'
+            '\t\treturn nil, stderr.Bytes(), err\n\t}\n\treturn stdout.Bytes(), nil, nil\n')
+VARIANTS += [
+ dict(name='benign-output-single-exit', file=P, expect='silent', find=RUN_OLD, replace=single_exit(), edits=[(P, OUTF_OLD, OUTF_NAMED)], why='named results, one return'),
+ dict(name='output-single-exit-success-without-exit-status', file=P, expect='flagged(runner/output-on-success)', find=RUN_OLD, edits=[(P, OUTF_OLD, OUTF_NAMED)],
+      replace=single_exit(extra='\t\tif len(errOut) == 0 {\n\t\t\treturn stdout.Bytes(), nil, nil\n\t\t}\n')),
+ dict(name='output-single-exit-error-cleared', file=P, expect='flagged(runner/output-on-success)', find=RUN_OLD, edits=[(P, OUTF_OLD, OUTF_NAMED)],
+      replace=single_exit().replace('\treturn out, errOut, err\n', '\tif len(errOut) == 0 {\n\t\tout, err = stdout.Bytes(), nil\n\t}\n\treturn out, errOut, err\n')),
+ dict(name='benign-output-timeout-helper', file=P, expect='silent', find=RUN_OLD, replace=R_TIMEOUT, edits=[(P, VAL_HOOK, timeout_helper() + VAL_HOOK)], why='the failing exit returns through a helper that wraps or forwards the error'),
+ dict(name='output-timeout-helper-drops-error', file=P, expect='flagged(runner/output-on-success)', find=RUN_OLD, replace=R_TIMEOUT, edits=[(P, VAL_HOOK, timeout_helper(fall='nil') + VAL_HOOK)]),
+ dict(name='benign-start-then-wait', file=P, expect='silent', find=RUN_OLD, replace=start_wait(), why='Run spelled Start + Wait, both errors fail-closed'),
+ dict(name='start-then-wait-error-ignored', file=P, expect='flagged(runner/output-on-success)', find=RUN_OLD, replace=start_wait(wait='\t_ = cmd.Wait()\n\tvar err error\n')),
+ dict(name='start-then-wait-delay-set-late', file=P, expect='flagged(command/wait-delay)', find=RUN_OLD, replace=start_wait(pre='\tcmd.WaitDelay = pluginWaitDelay\n'),
+      edits=[(P, '\t// do not wait forever for the output pipes held by plugin\'s descendants\n\tcmd.WaitDelay = pluginWaitDelay\n', '')]),
+]
+
+# ---- the runner behind a wrapper that forwards the commander's three results
+INV_OLD = '\tstdout, stderr, err := executor.Output(ctx, pluginPath, req.Command(), data)\n'
+INV_NEW = '\tstdout, stderr, err := execute(ctx, logger, pluginPath, req.Command(), data)\n'
+def exec_wrapper(ret='return stdout, stderr, err'):
+    return ('func execute(ctx context.Context, logger log.Logger, pluginPath string, command plugin.Command, data []byte) ([]byte, []byte, error) {\n'
+            '\tlogger.Debugf("executing %s %s", pluginPath, command)\n\tstdout, stderr, err := executor.Output(ctx, pluginPath, command, data)\n'
+            '\tif err != nil {\n\t\tlogger.Errorf("plugin %s execution status: %v", command, err)\n\t}\n\t' + ret + '\n}\n\n')
+VARIANTS += [
+ dict(name='benign-invoke-wrapper', file=P, expect='silent', find=INV_OLD, replace=INV_NEW, edits=[(P, MAP_HOOK, exec_wrapper() + MAP_HOOK)], why='the commander is invoked by a wrapper that logs and forwards the three results'),
+ dict(name='invoke-wrapper-clears-error', file=P, expect='flagged(runner/)', find=INV_OLD, replace=INV_NEW,
+      edits=[(P, MAP_HOOK, exec_wrapper(ret='if len(stdout) > 0 {\n\t\treturn stdout, stderr, nil\n\t}\n\treturn stdout, stderr, err') + MAP_HOOK)]),
+ dict(name='invoke-wrapper-drops-stderr', file=P, expect='flagged(runner/)', find=INV_OLD, replace=INV_NEW,
+      edits=[(P, MAP_HOOK, exec_wrapper(ret='if len(stderr) > 4096 {\n\t\treturn stdout, nil, err\n\t}\n\treturn stdout, stderr, err') + MAP_HOOK)]),
+ dict(name='invoke-wrapper-second-caller', file=P, expect='flagged(runner/)', find=INV_OLD, replace=INV_NEW,
+      edits=[(P, MAP_HOOK, exec_wrapper() + 'func (p *CLIPlugin) rawVersion(ctx context.Context) string {\n\tout, _, _ := execute(ctx, log.GetLogger(ctx), p.path, plugin.Command("version"), nil)\n\treturn string(out)\n}\n\n' + MAP_HOOK)]),
+]
+
+# ---- stderr decoded by a wrapper of json.Unmarshal; other orders of the same decisions
+def t_wrapped(src='stderr'):
+    return ('\tif err != nil {\n\t\tif len(stderr) == 0 {\n\t\t\treturn &PluginExecutableFileError{InnerError: err}\n\t\t}\n\t\tre, jsonErr := parseRequestError(' + src + ')\n'
+            '\t\tif jsonErr != nil {\n\t\t\treturn &PluginMalformedError{InnerError: jsonErr}\n\t\t}\n\t\treturn re\n\t}\n'
+            '\tif err = json.Unmarshal(stdout, resp); err != nil {\n\t\treturn &PluginMalformedError{Msg: fmt.Sprintf("failed to unmarshal the response of %s command for plugin %s", req.Command(), pluginName), InnerError: err}\n\t}\n\treturn nil\n')
+def parse_wrapper(ret='return re, err'):
+    return 'func parseRequestError(b []byte) (proto.RequestError, error) {\n\tvar re proto.RequestError\n\terr := json.Unmarshal(b, &re)\n\t' + ret + '\n}\n\n' + KEEP_STRINGS
+def t_success_first(test='err == nil'):
+    return ('\tif ' + test + ' {\n\t\tif err = json.Unmarshal(stdout, resp); err != nil {\n\t\t\treturn &PluginMalformedError{Msg: fmt.Sprintf("failed to unmarshal the response of %s command for plugin %s", req.Command(), pluginName), InnerError: err}\n\t\t}\n\t\treturn nil\n\t}\n'
+            '\tif len(stderr) > 0 {\n\t\tvar re proto.RequestError\n\t\tif jsonErr := json.Unmarshal(stderr, &re); jsonErr != nil {\n\t\t\treturn &PluginMalformedError{InnerError: jsonErr}\n\t\t}\n\t\treturn re\n\t}\n\treturn &PluginExecutableFileError{InnerError: err}\n')
+T_ERR_REUSED = ('\tif err != nil {\n\t\tif len(stderr) == 0 {\n\t\t\terr = &PluginExecutableFileError{InnerError: err}\n\t\t} else {\n\t\t\tvar re proto.RequestError\n'
+                '\t\t\tif jsonErr := json.Unmarshal(stderr, &re); jsonErr != nil {\n\t\t\t\terr = &PluginMalformedError{InnerError: jsonErr}\n\t\t\t} else {\n\t\t\t\terr = re\n\t\t\t}\n\t\t}\n'
+                '\t} else if err = json.Unmarshal(stdout, resp); err != nil {\n\t\terr = &PluginMalformedError{Msg: fmt.Sprintf("failed to unmarshal the response of %s command for plugin %s", req.Command(), pluginName), InnerError: err}\n\t}\n\treturn err\n')
+VARIANTS += [
+ tail_variant('benign-stderr-decode-wrapper', 'silent', t_wrapped(), parse_wrapper(), why='stderr decoded by a helper that returns (object, the decoder\'s error)'),
+ tail_variant('stderr-decode-wrapper-hides-error', 'flagged(runner/error-mapping/)', t_wrapped(), parse_wrapper(ret='if err != nil && len(b) > 1024 {\n\t\treturn re, nil\n\t}\n\treturn re, err')),
+ tail_variant('stderr-decode-wrapper-fed-stdout', 'flagged(runner/error-mapping/)', t_wrapped(src='stdout'), parse_wrapper()),
+ tail_variant('benign-success-first', 'silent', t_success_first(), KEEP_STRINGS, why='the success arm first, the stderr test positive'),
+ tail_variant('success-first-ignores-error-when-stdout', 'flagged(runner/process-error)', t_success_first(test='err == nil || len(stdout) > 0'), KEEP_STRINGS),
+ tail_variant('benign-single-exit-error-reused', 'silent', T_ERR_REUSED, KEEP_STRINGS, why='one return; the error variable is overwritten with the mapped error'),
+ tail_variant('single-exit-error-reused-plugin-error-dropped', 'flagged(runner/error-mapping/plugin-error)', T_ERR_REUSED.replace('\t\t\t\terr = re\n', '\t\t\t\terr = &PluginMalformedError{InnerError: re}\n'), KEEP_STRINGS),
+]
+
+# ---- the cut of the limited writer spelled with the builtin min
+CUT_OLD = '\tif int64(len(p)) > l.N {\n\t\tp = p[:l.N]\n\t}\n\tn, err := l.W.Write(p)\n'
+VARIANTS += [
+ dict(name='benign-writer-cut-with-min', file=L, expect='silent', find=CUT_OLD, replace='\tn, err := l.W.Write(p[:min(int64(len(p)), l.N)])\n', why='p[:min(len(p), remaining)]'),
+ dict(name='writer-cut-with-max', file=L, expect='flagged(limited-writer/cut-to-remaining)', find=CUT_OLD, replace='\tn, err := l.W.Write(p[:max(int64(len(p)), l.N)])\n'),
+ dict(name='writer-cut-with-min-of-cap', file=L, expect='flagged(limited-writer/cut-to-remaining)', find=CUT_OLD, replace='\tn, err := l.W.Write(p[:min(int64(len(p)), int64(cap(p)))])\n'),
+]
+
+# ---- stdout decoded through a helper that only forwards json.Unmarshal's error
+DEC_OLD = '\tif err = json.Unmarshal(stdout, resp); err != nil {\n\t\tlogger.Errorf("failed to unmarshal plugin %s response: %w", req.Command(), err)\n'
+def dec_new(src='stdout'):
+    return '\tif err = decodeInto(logger, ' + src + ', resp); err != nil {\n\t\tlogger.Errorf("failed to unmarshal plugin %s response: %w", req.Command(), err)\n'
+def dec_into(body='err := json.Unmarshal(b, v)'):
+    return 'func decodeInto(logger log.Logger, b []byte, v interface{}) error {\n\tlogger.Debugf("decoding %d bytes", len(b))\n\t' + body + '\n\treturn err\n}\n\n'
+VARIANTS += [
+ dict(name='benign-reply-decode-forwarder', file=P, expect='silent', find=DEC_OLD, replace=dec_new(), edits=[(P, MAP_HOOK, dec_into() + MAP_HOOK)], why='json.Unmarshal(stdout, resp) behind a helper that returns its error'),
+ dict(name='reply-decode-forwarder-streaming', file=P, expect='flagged(runner/reply-decodes)', find=DEC_OLD, replace=dec_new(), edits=[(P, MAP_HOOK, dec_into(body='err := json.NewDecoder(bytes.NewReader(b)).Decode(v)') + MAP_HOOK)]),
+ dict(name='reply-decode-forwarder-fed-stderr', file=P, expect='flagged(runner/)', find=DEC_OLD, replace=dec_new(src='stderr'), edits=[(P, MAP_HOOK, dec_into() + MAP_HOOK)]),
+]
